@@ -33,7 +33,7 @@ IU = 'utils.iter_utils'
 
 
 def run(ctx: Ctx):
-  for r in (r1, r2, r3, r4, r6, r10, r11):
+  for r in (r1, r2, r3, r4, r6, r10, r11, r12):
     ctx.guard(r)
   from mlmverif.props import c04
   from mlmverif.props._queue import model as qmodel
@@ -143,6 +143,137 @@ def r10(ctx: Ctx):
                    f' (known link methods: {sorted(links) or "none"}): an early stop of the consumer leaves'
                    f' the threads filling `{a}` blocked in put() for ever', node=call)
   ctx.floor(rule, 1, n)
+
+
+def _stopped_attrs(repo) -> set[str]:
+  ci = repo.cls(IU, 'IteratorQueue')
+  ms = ci.methods.get('maybe_stop')
+  out = set()
+  if ms is None:
+    return out
+  for x in ast.walk(ms.node):
+    if isinstance(x, ast.For) and is_self_attr(x.iter) and isinstance(x.target, ast.Name) and any(
+        isinstance(c, ast.Call) and isinstance(c.func, ast.Attribute) and c.func.attr == 'maybe_stop'
+        and isinstance(c.func.value, ast.Name) and c.func.value.id == x.target.id for c in ast.walk(x)):
+      out.add(x.iter.attr)
+  return out
+
+
+def _stops_linked_loop(x: ast.AST, attrs: set[str]) -> bool:
+  return isinstance(x, ast.For) and is_self_attr(x.iter) and x.iter.attr in attrs and isinstance(
+      x.target, ast.Name) and any(
+          isinstance(c, ast.Call) and isinstance(c.func, ast.Attribute) and c.func.attr == 'maybe_stop'
+          and isinstance(c.func.value, ast.Name) and c.func.value.id == x.target.id for c in ast.walk(x))
+
+
+def _failed_edges(p, q, lab):
+  """Normal edges, with tests of the failure state folded for "a failure has been recorded"."""
+  if not cfgm.only_normal(p, q, lab):
+    return False
+  if p.kind == 'cond':
+    t = p.ast
+    neg = False
+    while isinstance(t, ast.UnaryOp) and isinstance(t.op, ast.Not):
+      neg, t = not neg, t.operand
+    val = None
+    if is_self_attr(t) and t.attr in ('exception', '_exception'):
+      val = True
+    elif isinstance(t, ast.Compare) and len(t.ops) == 1 and is_self_attr(t.left) and t.left.attr in (
+        'exception', '_exception') and isinstance(t.comparators[0], ast.Constant) and t.comparators[0].value is None:
+      val = isinstance(t.ops[0], (ast.IsNot, ast.NotEq))
+    if val is not None:
+      val = val != neg
+      return lab == ('true' if val else 'false')
+  return True
+
+
+def r12(ctx: Ctx):
+  rule = 'R-C13-12'
+  ctx.rule(rule, '"when the stream ... fails ..., all helper threads finish": a queue that records a FAILURE of one of'
+           ' its enqueuers (`self._exception = <error>`) stops the queues linked to it (R-C13-10\'s link) on every path'
+           ' from that store to the end of the method — directly or through a method that runs the loop'
+           ' `for other in self.<linked>: other.maybe_stop()` (call summaries over self-calls). The workers of a stacked'
+           ' stream stop on a failure and the consumer sees it, but the feeder threads of the input queue sit in put()'
+           ' on a full buffer: only the link can release them. And the link method stops its argument at once when'
+           ' the queue has ALREADY failed (the workers are launched before the link is made: a failure on the very'
+           ' first element precedes it)')
+  repo = ctx.repo
+  attrs = _stopped_attrs(repo)
+  if not attrs:
+    raise AnalysisError('IteratorQueue.maybe_stop stops no linked queue: nothing to check (R-C13-10 reports the missing link)')
+  classes = [repo.cls(IU, 'IteratorQueue')]
+  try:
+    classes.append(repo.cls(IU, 'AsyncIteratorQueue'))
+  except Exception:  # pylint: disable=broad-exception-caught
+    pass
+  methods = {}
+  for ci in classes:
+    for name, m in ci.methods.items():
+      methods.setdefault(name, m)
+  # summaries: methods that (on some condition of the failure state only) stop the linked queues
+  summ = {name for name, m in methods.items() if any(_stops_linked_loop(x, attrs) for x in ast.walk(m.node))}
+  changed = True
+  while changed:
+    changed = False
+    for name, m in methods.items():
+      if name in summ:
+        continue
+      # a method whose every normal path calls a summarised method
+      g = cfgm.cfg_of(m.node)
+      thr = lambda nd: any(isinstance(c, ast.Call) and isinstance(c.func, ast.Attribute) and is_self_attr(c.func)
+                           and c.func.attr in summ for x in cfgm.node_exprs(nd) for c in ast.walk(x))
+      if any(thr(nd) for nd in g.nodes) and g.must_pass(g.entry, [g.exit_ret], thr, edge_ok=_failed_edges) is None:
+        summ.add(name)
+        changed = True
+  n = 0
+  for ci in classes:
+    for name, m in ci.methods.items():
+      if name in ('__init__', 'maybe_stop'):
+        continue
+      g = cfgm.cfg_of(m.node)
+      stores = [nd for nd in g.nodes if nd.kind == 'stmt' and isinstance(nd.ast, ast.Assign) and any(
+          is_self_attr(t, '_exception') for t in nd.ast.targets) and not (
+              isinstance(nd.ast.value, ast.Constant) and nd.ast.value.value is None)]
+      for st in stores:
+        n += 1
+
+        def thr(nd):
+          if nd.ast is not None and _stops_linked_loop(nd.ast, attrs):
+            return True
+          return any(isinstance(c, ast.Call) and isinstance(c.func, ast.Attribute) and is_self_attr(c.func)
+                     and c.func.attr in summ for x in cfgm.node_exprs(nd) for c in ast.walk(x))
+
+        w = g.must_pass(st, [g.exit_ret, g.exit_exc], thr, edge_ok=cfgm.no_close)
+        what = f'{ci.name}.{name}: a recorded failure stops the linked queues'
+        if w is None:
+          ctx.ok(rule, m, what, st.ast)
+        else:
+          ctx.fail(rule, m, what,
+                   f'{ci.name}.{name} records a failure (`{unparse(st.ast)}`) and leaves without stopping the queues in'
+                   f' self.{sorted(attrs)} (methods that do: {sorted(summ) or "none"}): path {" -> ".join(w[-4:])}. The'
+                   ' workers of a stacked stream stop, the threads feeding them stay blocked in put() on the full input'
+                   ' queue for good', node=st.ast)
+  # the link method handles "already failed"
+  for lname in sorted(_stop_link_methods(repo)):
+    m = methods[lname]
+    n += 1
+    ps = FuncInfo(m.module, m.qualname, m.node, m.cls).params()[1:]
+    ok = False
+    for x in ast.walk(m.node):
+      if isinstance(x, ast.If) and any(
+          (is_self_attr(y) and y.attr in ('_exception', 'exception')) for y in ast.walk(x.test)):
+        if any(isinstance(c, ast.Call) and isinstance(c.func, ast.Attribute) and c.func.attr == 'maybe_stop'
+               and isinstance(c.func.value, ast.Name) and c.func.value.id in ps for b in x.body for c in ast.walk(b)):
+          ok = True
+    what = f'IteratorQueue.{lname}: a queue that has already failed stops the newly linked queue at once'
+    if ok:
+      ctx.ok(rule, m, what, m.node)
+    else:
+      ctx.fail(rule, m, what,
+               f'{lname}() only registers its argument: the stacking function makes the link AFTER it launched the workers,'
+               ' so a failure on the very first element has already run the failure path (with nothing linked yet) —'
+               ' the feeder threads are never stopped', node=m.node)
+  ctx.floor(rule, 3, n)
 
 
 def r11(ctx: Ctx):
@@ -514,6 +645,15 @@ from mlmverif.selfcheck import B, OK  # noqa: E402
 
 _F = 'utils/iter_utils.py'
 VARIANTS = [
+    B('revert-failure-stops-linked', 'utils/iter_utils.py',
+      "    if self.exception is not None:\n      # A failed stream is over: what feeds its enqueuers is stopped as well,\n      # its threads are otherwise blocked on their full queue for good.\n      for other in self._stopped_with:\n        other.maybe_stop()\n",
+      '', 'R-C13-12'),
+    B('link-ignores-earlier-failure', 'utils/iter_utils.py',
+      "    self._stopped_with.append(other)\n    if self.exception is not None:\n      # Already failed, e.g., on the very first element.\n      other.maybe_stop()\n",
+      "    self._stopped_with.append(other)\n", 'R-C13-12'),
+    OK('failure-stops-linked-through-helper', 'utils/iter_utils.py',
+       "    if self.exception is not None:\n      # A failed stream is over: what feeds its enqueuers is stopped as well,\n      # its threads are otherwise blocked on their full queue for good.\n      for other in self._stopped_with:\n        other.maybe_stop()\n",
+       "    if self.exception is not None:\n      self._stop_linked()\n\n  def _stop_linked(self):\n    for other in self._stopped_with:\n      other.maybe_stop()\n"),
     B('revert-piter-pool-sized-for-feeders', 'utils/iter_utils.py',
       '    thread_pool = _get_thread_pool(\n        thread_pool, max_workers=len(input_iterators) + max(max_parallism, 1)\n    )',
       '    thread_pool = _get_thread_pool(thread_pool)', 'R-C13-11'),
